@@ -150,6 +150,26 @@ def run(tier):
     tr0, ncases = probe_events()
     chk.count(len(tr0.events))
     dates = ["2023-01-01", "2002-01-01"] + rnd.sample([d for d in DATES if d != "2023-01-01"] + ["2001-06-01", "2003-01-01", "2005-01-01", "2010-01-01"], 2 if quick else 10)
+    # the specification in force (base, direction, offset) is the law's, not the environment's:
+    # Timeline.tla resolves it from the raw YAML entries and TLC compares (clause `rounding`)
+    import c07
+
+    raw_file = chk.work / "raw.json"
+    tlc.write_json(raw_file, {"groups": c07.export_raw(), "impls": []})
+    spec_days = sorted(set(dates) | {"2001-01-01", "2001-12-31", "2003-12-31", "2004-01-01"})
+    evs = [e for d in spec_days for e in c07.observe_day((d, False))[0] if e["k"] == "env"]
+    badspec, st, _meta = c07.judge(chk, raw_file, evs, "c10spec")
+    chk.count(len(evs))
+    chk.cov["traces_validated_against_impl"] += len(evs)
+    seen_spec = set()
+    for idx, clause, names in badspec:
+        if clause != "rounding":
+            continue
+        for nm in names:
+            if (evs[idx]["group"], nm) in seen_spec:
+                continue
+            seen_spec.add((evs[idx]["group"], nm))
+            chk.violation(f"C10|spec-of-date|group={evs[idx]['group']}|node={nm}", f"the rounding specification of {nm} in the environment of {evs[idx]['iso']} is not the one in force (base/direction/offset)", {"date": evs[idx]["iso"], "group": evs[idx]["group"], "node": nm})
     njobs = 8 if quick else 60
     jobs = [(dates[t % len(dates)], rnd.randrange(1 << 30), t, str(chk.work)) for t in range(njobs)]
     jobs.sort()
